@@ -154,7 +154,7 @@ def _vec_only_drives_set_updates(b, t):
         n = last_seg(u.callee_res() or '')
         if n in ('len', 'is_empty', 'deref', 'iter', 'into_iter', 'as_slice'):
             continue
-        if re.search(r'(HashMap|HashSet|BTreeMap|BTreeSet)::(remove|insert|contains|contains_key|get|get_mut|entry)$', u.callee_res() or '') and \
+        if re.search(r'(HashMap|HashSet|BTreeMap|BTreeSet)::(remove|contains|contains_key|get)$', u.callee_res() or '') and \
                 cfg.innermost_loop(b, u.bb) is not None:
             continue     # an element handed to a map / set operation inside the loop (checked with the loop below)
         if n == 'next':
@@ -165,7 +165,8 @@ def _vec_only_drives_set_updates(b, t):
             for w in b.terms('call'):
                 if w.bb in lp.blocks and w is not u:
                     wn = w.callee_res() or ''
-                    if not re.search(r'(HashMap|HashSet|BTreeMap|BTreeSet)::(remove|insert|contains|contains_key|get|get_mut|entry)$|::next$|::deref$|::clone$|mem::drop$|drop_in_place', wn):
+                    # removals and look-ups only: `remove(k); insert(k - 1)` on the set the keys came from collides differently for different orders
+                    if not re.search(r'(HashMap|HashSet|BTreeMap|BTreeSet)::(remove|contains|contains_key|get)$|::next$|::deref$|::clone$|mem::drop$|drop_in_place', wn):
                         return False
             loops_ok += 1
             continue
